@@ -391,6 +391,35 @@ def gen_family(rng, force=(), forbid=(), n_masters=None, max_glyphs=14, p_sparse
                 c0 = extra[0]
                 g["anchors"].append([c0 + "_1", _q(rng, (g["width"] or 300) * 0.3, spec["frac"]), 620])
                 g["anchors"].append([c0 + "_2", _q(rng, (g["width"] or 300) * 0.7, spec["frac"]), 620])
+    if "contextual_anchor" in on and "marks" in on and rng.random() < 0.6:
+        # further contextual anchors on the same glyph, for other anchor classes and (mostly)
+        # with the *same* context string: one context then dispatches to several lookups
+        holders = [n for n, g_ in glyphs.items() if any(a[0] == "*top" for a in g_["anchors"])]
+        mark_keys = {a[0][1:] for g_ in glyphs.values() for a in g_["anchors"] if a[0].startswith("_")}
+        for n0 in holders:
+            g = glyphs[n0]
+            ctx = next(iter(g["lib"].get("public.objectLibs", {}).values()), {}).get("GPOS_Context")
+            others = [a for a in g["anchors"] if a[0] in mark_keys and a[0] != "top"]
+            rng.shuffle(others)
+            for a in others[: rng.randint(1, 3)]:
+                ident = "ctx-%s-%s" % (n0.replace(".", "_"), a[0])
+                g["anchors"].append(["*" + a[0], a[1] + 10, a[2] + 40, ident])
+                g["lib"].setdefault("public.objectLibs", {})[ident] = {
+                    "GPOS_Context": ctx if (ctx and rng.random() < 0.75) else "* %s" % n0}
+    if "composites" in on and "space" in glyphs and rng.random() < 0.4:
+        # composites made of an *empty* glyph: decomposing them removes the component
+        # without adding a single contour
+        glyphs["uni00A0"] = _empty_glyph(glyphs["space"]["width"])
+        glyphs["uni00A0"]["unicodes"] = [0xA0]
+        glyphs["uni00A0"]["components"] = [["space", [1, 0, 0, 1, 0, 0]]]
+        roster.append(("uni00A0", [0xA0], "spacecomp"))
+        names.append("uni00A0")
+        if rng.random() < 0.5:
+            glyphs["uni2009"] = _empty_glyph(int(glyphs["space"]["width"] / 2))
+            glyphs["uni2009"]["unicodes"] = [0x2009]
+            glyphs["uni2009"]["components"] = [["space", [0.5, 0, 0, 1, 0, 0]]]
+            roster.append(("uni2009", [0x2009], "spacecomp"))
+            names.append("uni2009")
     if "tt_instructions" in on:
         lib_tt = {"formatVersion": "1", "controlValue": {"0": 0, "2": 500, "5": -12},
                   "controlValueProgram": "PUSHB[ ] 0\nFDEF[ ]\nENDF[ ]" if rng.random() < 0.3 else "PUSHW[ ] 511\nSCANCTRL[ ]",
